@@ -175,6 +175,8 @@ def main(tier, seed):
         'delivered constraints are serialised with the library WriteJSON(con) overloads; semantics are evaluated by ref/aux_search.h (cross-checked against lib/delivered.py)',
         'API capability flags (quadratic objective/constraints, cones) are explored as the listed presets, not as a full product',
     ]
+    if tot['v_invalid-nl']:
+        chk.broken.append('generator produced %d NL texts the reader rejected' % tot['v_invalid-nl'])
     if tot['oracle_disagreements']:
         chk.broken.append('C++ and Python oracles disagree on %d cases' % tot['oracle_disagreements'])
     if tot['configs'] and tot['nontrivial'] * 20 < tot['v_ok']:
